@@ -41,6 +41,15 @@ CHECKS = {
     "C08": container("Kind=hg for connectivity, all kinds for degrees", "3 C08", "All 128 hypergraphs on 3 nodes plus the "
                      "replayed histories; every function of utils/cc.py and measures/degree.py (method and module level, "
                      "order= and size= spellings) compared with Components/Degree of Derive.tla. "),
+    "C12": dict(
+        level="model_checking", ref="3 C12",
+        text=("Directed.tla defines in/out degrees, the signature vector and the three reciprocity ratios as exact "
+              "rationals; TLC checks ExactLeStrongLeWeak, PointwiseImplication, RatiosInUnitInterval, SignatureCellSum and "
+              "InOutDegreeSum in every reachable state of the bounded directed container (3 nodes, all 4096 key sets), and "
+              "validates the values returned by hypergraphx.measures.directed.* for every directed hypergraph on 3 nodes "
+              "(thorough; a seeded sample in quick) and random ones on 4-6 nodes with bounds 2..7, under four label maps."),
+        note=TB + " Returned floats are converted to the nearest fraction with denominator <= 1000, which must reproduce the float.",
+        technique="TLA+ definitions + TLC exhaustive invariants; TLC validation of logged return values (one-call traces)"),
 }
 
 NOT_APPLICABLE = {
